@@ -82,8 +82,22 @@ class LazyIgnoresRule(BaseLintRule):
         if not context.file_content:
             return []
 
+        if not self._is_enabled(context):
+            return []
+
         file_path = str(context.file_path) if context.file_path else "unknown"
         return self.check_content(context.file_content, file_path)
+
+    @staticmethod
+    def _is_enabled(context: BaseLintContext) -> bool:
+        """Honour ``enabled: false`` in the lazy-ignores configuration section."""
+        metadata = getattr(context, "metadata", None)
+        if not isinstance(metadata, dict):
+            return True
+        section = metadata.get("lazy_ignores", metadata.get("lazy-ignores"))
+        if not isinstance(section, dict):
+            return True
+        return section.get("enabled", True) is not False
 
     def check_content(self, code: str, file_path: str) -> list[Violation]:
         """Check code for unjustified ignores and orphaned suppressions.
